@@ -26,6 +26,7 @@
 #include <fcppt/parse/parse.hpp>
 #include <fcppt/parse/phrase_parse.hpp>
 #include <fcppt/parse/phrase_parse_stream.hpp>
+#include <fcppt/parse/operators/alternative.hpp>
 #include <fcppt/parse/position.hpp>
 #include <fcppt/parse/result.hpp>
 #include <fcppt/parse/set_position.hpp>
@@ -423,6 +424,79 @@ Reg const r_long{"long_lines_many_lines", Kind::exhaustive, "a line of at least 
                    return std::string(c.at(2) % 2 == 0 ? "char" : "wchar_t") + (shape == 0 ? " one line of " : shape == 1 ? " 'a', newline and a line of " : " text of ") + std::to_string(long_lens[li]) + (shape == 2 ? " empty lines and 'ab'" : " characters");
                  }};
 
+// ---------------------------------------------------------------- a stream that has failed BEFORE it is used
+// The underlying stream is handed over in a failed state (failbit after a failed extraction, badbit),
+// with unread characters still in its buffer. "A failing underlying stream yields a failure, never a
+// character": whatever order the position and the characters are asked for in, no character comes
+// back, and a parser run on it does not succeed. (An exception is a failure, too; the position
+// obtained from a failing stream is not judged.)
+template <typename Ch>
+void prefailed_case(std::size_t state, std::size_t order)
+{
+  std::basic_string<Ch> text;
+  for (char c : std::string("xy\nz")) text += static_cast<Ch>(c);
+  std::ios_base::iostate const st = state == 0 ? std::ios_base::failbit : state == 1 ? std::ios_base::badbit : (std::ios_base::failbit | std::ios_base::badbit);
+  count(true);
+  std::string const ctx = std::string(ch_name<Ch>()) + " stream over \"xy\\nz\" with " + (state == 0 ? "failbit" : state == 1 ? "badbit" : "failbit|badbit") + " set before use, ";
+  auto const no_char = [&](stream_ref<Ch> const &r, char const *when) {
+    try
+    {
+      fcppt::optional::object<Ch> const c = fp::get_char(r);
+      if (c.has_value()) fail("stream+failed-before-use|character-from-a-failing-stream", ctx + when + ": get_char returned " + show(c.get_unsafe()));
+    }
+    catch (...)
+    {
+    }
+  };
+  if (order < 3)
+  {
+    std::basic_istringstream<Ch> in{text};
+    in.setstate(st);
+    fp::detail::stream<Ch> s{in_ref<Ch>(in)};
+    stream_ref<Ch> const r = to_ref(s);
+    if (order == 0) no_char(r, "get_char first");
+    else
+    {
+      fcppt::optional::object<fp::position<Ch>> pos;
+      try { pos = fcppt::optional::object<fp::position<Ch>>{fp::get_position(r)}; } catch (...) {}
+      no_char(r, "get_position, then get_char");
+      if (order == 2 && pos.has_value())
+      {
+        try { fp::set_position(r, pos.get_unsafe()); } catch (...) {}
+        no_char(r, "get_position, set_position, then get_char");
+      }
+    }
+  }
+  else
+  {
+    std::basic_istringstream<Ch> in{text};
+    in.setstate(st);
+    try
+    {
+      auto const res = fp::phrase_parse_stream(
+          fp::basic_literal<Ch>{static_cast<Ch>('x')} | fp::basic_literal<Ch>{static_cast<Ch>('y')}, in, fp::skipper::epsilon{});
+      if (res.has_success()) fail("stream+failed-before-use|parse-succeeded-on-a-failing-stream", ctx + "phrase_parse_stream(literal x | literal y) succeeded");
+    }
+    catch (...)
+    {
+    }
+  }
+}
+void prefailed_one(Ints const &c)
+{
+  std::size_t const state = static_cast<std::size_t>(static_cast<u64>(c.at(0)) % 3), order = static_cast<std::size_t>(static_cast<u64>(c.at(1)) % 4);
+  if (c.at(2) % 2 == 0) prefailed_case<char>(state, order);
+  else prefailed_case<wchar_t>(state, order);
+}
+Reg const r_prefailed{"stream_failed_before_use", Kind::exhaustive, "every case",
+                      [] { for (i64 s = 0; s < 3; ++s) for (i64 o = 0; o < 4; ++o) for (i64 w = 0; w < 2; ++w) { cur3(s, o, w); prefailed_one({s, o, w}); } },
+                      prefailed_one,
+                      [](Ints const &c) {
+                        static char const *const st[] = {"failbit", "badbit", "failbit|badbit"};
+                        static char const *const od[] = {"get_char", "get_position, get_char", "get_position, set_position, get_char", "phrase_parse_stream(literal | literal)"};
+                        return std::string(c.at(2) % 2 == 0 ? "char" : "wchar_t") + " stream with " + st[static_cast<u64>(c.at(0)) % 3] + " set before use: " + od[static_cast<u64>(c.at(1)) % 4];
+                      }};
+
 // ---------------------------------------------------------------- random histories
 template <typename Ch>
 void random_history(Choices &c)
@@ -602,6 +676,18 @@ void error_case(std::basic_string<Ch> const &text, std::size_t k, std::size_t xi
   using str_t = std::basic_string<Ch>;
   try
   {
+    // Every parse stands for itself: directly before, the same failure is provoked at the SAME
+    // offset in a twin text whose first character is toggled between a newline and a letter (so
+    // that line and column at that offset differ). Its message is not judged; the messages below
+    // must not depend on it.
+    if (k >= 1 && k <= n)
+    {
+      str_t twin = text;
+      twin[0] = twin[0] == static_cast<Ch>('\n') ? static_cast<Ch>('a') : static_cast<Ch>('\n');
+      std::basic_istringstream<Ch> in{twin};
+      auto const parser = fp::basic_string<Ch>{str_t{twin.substr(0, k)}} >> fp::basic_literal<Ch>{x};
+      (void)fp::phrase_parse_stream(parser, static_cast<std::basic_istream<Ch> &>(in), fp::skipper::epsilon{});
+    }
     // parser level: string(t[0,k)) >> literal(x) / char_set{x,c}
     {
       std::basic_istringstream<Ch> in{text};
